@@ -221,6 +221,18 @@ func registerIntrinsics(ex *Exec) {
 		}
 		return C.BVConst(uint64(n), 64), true
 	}
+	// Digest(label, text): translator self-test - the text a harness computed with concrete inputs is recorded and later
+	// compared with what the same harness computes natively (tools/selftest.py)
+	I[zz+"Digest"] = func(ex *Exec, st *State, args []Value, call ssa.CallInstruction) (Value, bool) {
+		txt, ok := args[1].(Str).Concrete()
+		if !ok {
+			txt = "<not concrete>"
+		}
+		if ex.Digests != nil {
+			ex.Digests[cstr(args[0])] = txt
+		}
+		return nil, true
+	}
 	I[zz+"Ite"] = func(ex *Exec, st *State, args []Value, call ssa.CallInstruction) (Value, bool) {
 		return C.Ite(args[0].(*smt.Term), args[1].(*smt.Term), args[2].(*smt.Term)), true
 	}
